@@ -1,11 +1,12 @@
 """C05 — try_join: Ok iff all Ok (positional); the first observed error short-circuits."""
+from ..facts import base
 from .. import families, scan
 from . import joinlike, flow, common, c02, c03, c01
 
 PROPERTY = "C05"
 LEVEL = "other"
-CONFIGS_QUICK = ["std", "alloc"]
-CONFIGS_THOROUGH = ["std", "alloc", "core"]
+CONFIGS_QUICK = ["std", "alloc", "std-rel"]
+CONFIGS_THOROUGH = ["std", "alloc", "core", "std-rel", "alloc-rel", "core-rel"]
 EXPLANATION = (
     "Data-flow, counter and short-circuit rules on the MIR of every try_join poll body (tuple arities 1-12, array, Vec): "
     "(POS/CNT/ZERO) as for join, on the Ready(Ok) edges: the Ok payload goes to the child's own slot, the counter moves once per "
@@ -59,7 +60,7 @@ def run(ctx):
         with ctx.renamed({"C02.UTIL": "C05.DISCARD"}):
             c02.rule_util(ctx, M)
         joinlike.rule_zero_tuple0(ctx, M, "try_join", "C05.ZERO", "Ready(Ok)")
-        na = 1 if cfg == "core" else 2
+        na = 1 if base(cfg) == "core" else 2
         ctx.floor("C05.POS", cfg, 78 + na + 12 + na)
         ctx.floor("C05.CNT", cfg, 2 * (78 + na) + 3 * (12 + na))
         ctx.floor("C05.ERR", cfg, 78 + na)
